@@ -15,8 +15,11 @@
                 `idw_weights_sorted`, `idw_between`, `idw_between_min_max`, `idw_const`,
                 `idwAt_between_min_max`, `idwAt_const` (end to end: k-nearest selection + gather
                 + weights), `natPow_ok` (every natural power is admissible),
-                `idw_weights_meet_spec` / `idw_meets_within` (the decidable driver specs hold of the
-                model with tolerance 0);
+                `idw_weights_meet_spec` / `idwAt_weights_meet_spec` / `idw_meets_within` (the
+                decidable driver specs hold of the model with tolerance 0), `rpow_ok` (every real
+                power p ≥ 0 is admissible over ℝ);
+  * metric      `chord_le_iff_arc_le`: on unit vectors chord order = great-circle order (so the
+                cartesian remap selects the great-circle-nearest elements);
   * dims/kind   `remap_dims`, `kind_by_dim`, `remap_shape`, `k_guard`, and the as-is
                 counterexamples `asis_kind_by_length`, `asis_single_destination_drops_axis`,
                 `asis_idw_single_destination_raises`, `asis_k_guard_refuses_admissible`, with the
@@ -648,6 +651,20 @@ theorem idwAt_const (hp : PowOK pw) (heps : 0 < eps) (k : Nat) (hk : 1 ≤ k)
       kDists_length]
   · exact fun v hv => hc v (gather_mem row _ v hv)
 
+/-- the weights the model attaches to the `k` nearest (listed nearest first) meet the decidable
+    weight specification the driver evaluates on the implementation's weights -/
+theorem idwAt_weights_meet_spec (hp : PowOK pw) (heps : 0 < eps) (k : Nat) (hk : 1 ≤ k)
+    (D : List K) (hne : D ≠ []) (hD : ∀ d ∈ D, 0 ≤ d) :
+    weightsOkB 0 (idwWeights pw eps (kDists D k)) = true := by
+  have hpos : 0 < D.length := List.length_pos_iff.mpr hne
+  have hkne : kDists D k ≠ [] := by
+    intro h
+    have := kDists_length D k
+    rw [h, List.length_nil] at this
+    omega
+  exact idw_weights_meet_spec hp heps _ hkne (fun d hd => hD d (kDists_mem D k d hd))
+    (kDists_sorted D k)
+
 /-- every leading-dimension index is remapped by the same rule -/
 theorem remap_rows {α β : Type} (f : List α → β) (rows : List (List α)) (r : Nat)
     (h : r < rows.length) : (remapRows f rows)[r]'(by simpa [remapRows] using h) = f rows[r] := by
@@ -655,6 +672,16 @@ theorem remap_rows {α β : Type} (f : List α → β) (rows : List (List α)) (
 
 end EndToEnd
 
+/-- non-vacuity: the hypotheses of the end-to-end theorems are met by a concrete input
+    (ℚ, power 2, ε = 10⁻⁶, 3 nearest of 5 sources) -/
+example : ∃ v vs, gather ([50, 30, 90, 31, 70] : List ℚ) (kNearest [5, 3, 9, 0, 7] 3) = v :: vs ∧
+    (v :: vs).length = min 3 5 ∧
+    minL v vs ≤ idwAt (fun d => d ^ 2) (1 / 1000000) 3 [5, 3, 9, 0, 7] [50, 30, 90, 31, 70] ∧
+    idwAt (fun d => d ^ 2) (1 / 1000000) 3 [5, 3, 9, 0, 7] [50, 30, 90, 31, 70] ≤ maxL v vs ∧
+    minL v vs ∈ ([50, 30, 90, 31, 70] : List ℚ) ∧ maxL v vs ∈ ([50, 30, 90, 31, 70] : List ℚ) :=
+  idwAt_between_min_max (K := ℚ) (pw := fun d => d ^ 2) (eps := 1 / 1000000) (natPow_ok 2)
+    (by norm_num) 3 (by norm_num) [5, 3, 9, 0, 7] [50, 30, 90, 31, 70] (by simp)
+    (by intro d hd; simp at hd; rcases hd with rfl | rfl | rfl | rfl | rfl <;> norm_num) rfl
 /-- non-vacuity (ℚ, power 2, ε = 10⁻⁶): 3 nearest of 5 sources -/
 example : idwAt (K := ℚ) (fun d => d ^ 2) (1 / 1000000) 3 [5, 3, 9, 0, 7] [50, 30, 90, 31, 70]
     = 6975002254000111 / 225000068000003 := by decide +kernel
@@ -786,5 +813,10 @@ theorem chord_le_iff_arc_le (q p₁ p₂ : ℝ × ℝ × ℝ) (hq : dot3 q q = 1
   rw [Real.strictAntiOn_arccos.le_iff_ge (bound p₁ h1) (bound p₂ h2),
     chordSq_unit q p₁ hq h1, chordSq_unit q p₂ hq h2]
   constructor <;> intro h <;> linarith
+
+/-- non-vacuity: unit vectors exist (the three coordinate axes) -/
+example : chordSq ((1 : ℝ), (0 : ℝ), (0 : ℝ)) (0, 1, 0) ≤ chordSq ((1 : ℝ), (0 : ℝ), (0 : ℝ)) (0, 0, 1) ↔
+    Real.arccos (dot3 ((1 : ℝ), (0 : ℝ), (0 : ℝ)) (0, 1, 0)) ≤ Real.arccos (dot3 ((1 : ℝ), (0 : ℝ), (0 : ℝ)) (0, 0, 1)) :=
+  chord_le_iff_arc_le _ _ _ (by simp [dot3]) (by simp [dot3]) (by simp [dot3])
 
 end UxVerif.C12
